@@ -117,6 +117,23 @@ Zero(T) == CASE T = "int"  -> C("int", "lit:0")
              [] T = "bool" -> C("bool", "lit:false")
              [] T = "list" -> C("list", "lit:[]")
              [] T = "obj"  -> C("obj", "lit:{}")
+\* Values outside the domain of a conversion a step performs (uint16 port,
+\* days / hours as nanoseconds): the statement admits an error or going on;
+\* what the converted value then is, it does not say ("any:").
+Huge     == "lit:9223372036854775807"
+OddInt   == {"lit:-1", Huge}
+OddPort  == OddInt \cup {"lit:65536"}
+AnyV(t)   == C(t, "any:")
+\* Lists with elements that are neither strings nor objects.
+BadElems == {"lit:[1.5,null]"}
+\* (NotAllStr / NotAllObj: list literals some element of which is not a
+\* string / not an object; steps that walk a list may refuse those.)
+OddStrs  == "lit:[\"\",\"#c\",\"[/x/\",\"[/x/]quic://8.8.8.8\",\"quic://[::1\",\"quic://a:b:c\",\"://\",\"quic://\"]"
+DotList  == "lit:[\".\",\"a\",1.5]"
+NotAllStr == BadElems \cup {DotList}
+NotAllObj == BadElems \cup {DotList, OddStrs}
+\* A password longer than bcrypt accepts (80 bytes).
+LongStr  == "lit:\"0123456789012345678901234567890123456789012345678901234567890123456789_123456789\""
 True  == C("bool", "lit:true")
 False == C("bool", "lit:false")
 
@@ -179,6 +196,9 @@ MoveSeq(O, ms) == IF ms = <<>> THEN O ELSE MoveSeq(Bind(O, LAMBDA x : Move(x, He
 \* The element of the client list, if the list is there and not empty.
 HasElem(d, listCell) == listCell.v = "cl" /\ d["cl0"].t # "absent"
 ElemObj(d) == d["cl0"].t = "obj"
+\* A client list that is not the tracked one (a literal put there by a
+\* deviation): a non-object element is {error, skip} like for cl0.
+Untracked(d, listCell) == IF listCell.v \in NotAllObj THEN {Ok(d), ErrO} ELSE {Ok(d)}
 
 \* ------------------------------------------------------------------ steps
 S1(d) == {Ok(d)}
@@ -197,13 +217,14 @@ S4(d) == UNION {CASE w.k = "err" -> {ErrO}
                   [] OTHER -> IF HasElem(d, w.c)
                                 THEN IF ElemObj(d) THEN {Ok(Put(d, "cl0", "use_global_blocked_services", True))}
                                      ELSE {Ok(d), ErrO}
-                                ELSE {Ok(d)}
+                                ELSE Untracked(d, w.c)
                 : w \in FV(d["clients"], "list")}
 
 S5(d) == UNION {IF n.k = "err" \/ p.k = "err" THEN {ErrO}
                 ELSE LET d1 == IF n.k = "yes" THEN Del(d, "", "auth_name") ELSE d IN
                      IF p.k = "no" THEN {Ok(d1)}
-                     ELSE {Ok([Del(d1, "", "auth_pass") EXCEPT
+                     ELSE (IF p.c.v = LongStr THEN {ErrO} ELSE {}) \cup
+                          {Ok([Del(d1, "", "auth_pass") EXCEPT
                                !["users"] = C("list", "users:" \o VOf(n) \o "|" \o p.c.v)])}
                 : n \in FV(d["auth_name"], "str"), p \in FV(d["auth_pass"], "str")}
 
@@ -216,7 +237,7 @@ S6(d) == UNION {CASE w.k = "err" -> {ErrO}
                                           ELSE {Ok(Put(d, "cl0", "ids", C("list", "ids:" \o VOf(i) \o "|" \o VOf(m))))}
                                           : i \in FV(d["cl0.ip"], "str"), m \in FV(d["cl0.mac"], "str")}
                               ELSE {ErrO, Ok(d)}
-                       ELSE {Ok(d)}
+                       ELSE Untracked(d, w.c)
                 : w \in FV(d["clients"], "list")}
 
 S7(d) == WithSec(d, "dhcp", LAMBDA y :
@@ -239,10 +260,11 @@ S9(d) == WithSec(d, "dns", LAMBDA x : Move(x, M("dns", "autohost_tld", "dns", "l
 \* Default port of QUIC upstreams: the list is rewritten in place; what
 \* happens to one entry is value-level behaviour that is not modelled.
 Quic(O, n) == Bind(O, LAMBDA x :
-    {CASE w.k = "err" -> ErrO
-       [] w.k = "no" -> Ok(x)
-       [] OTHER -> Ok(Put(x, "dns", n, C("list", "quic:" \o w.c.v)))
-       : w \in FV(x[K("dns", n)], "list")})
+    UNION {CASE w.k = "err" -> {ErrO}
+             [] w.k = "no" -> {Ok(x)}
+             [] OTHER -> (IF w.c.v \in NotAllStr THEN {ErrO} ELSE {})
+                         \cup {Ok(Put(x, "dns", n, C("list", "quic:" \o w.c.v)))}
+           : w \in FV(x[K("dns", n)], "list")})
 S10(d) == WithSec(d, "dns", LAMBDA x : Quic(Quic({Ok(x)}, "upstream_dns"), "local_ptr_upstreams"))
 
 S11(d) == {IF w.k = "err" THEN ErrO
@@ -253,10 +275,12 @@ S11(d) == {IF w.k = "err" THEN ErrO
            : w \in FV(d["rlimit_nofile"], "int")}
 
 S12(d) == WithSec(d, "dns", LAMBDA x :
-            {IF w.k = "err" THEN ErrO
-             ELSE Ok(Put(x, "dns", "querylog_interval",
-                         IF w.k = "yes" THEN C("dur", "days:" \o w.c.v) ELSE C("dur", "lit:2160h")))
-             : w \in FV(x["dns.querylog_interval"], "int")})
+            UNION {IF w.k = "err" THEN {ErrO}
+                   ELSE IF w.k = "yes" /\ w.c.v \in OddInt
+                     THEN {ErrO, Ok(Put(x, "dns", "querylog_interval", AnyV("dur")))}
+                   ELSE {Ok(Put(x, "dns", "querylog_interval",
+                                IF w.k = "yes" THEN C("dur", "days:" \o w.c.v) ELSE C("dur", "lit:2160h")))}
+                   : w \in FV(x["dns.querylog_interval"], "int")})
 
 S13(d) == WithSec(d, "dns", LAMBDA x : WithSec(x, "dhcp", LAMBDA y :
             Move(y, M("dns", "local_domain_name", "dhcp", "local_domain_name", "str"))))
@@ -318,14 +342,17 @@ S19(d) == WithSec(d, "clients", LAMBDA x :
                                                     C("obj", "ss:" \o w.c.v)))
                                : w \in FV(x["cl0.safesearch_enabled"], "bool")}
                          ELSE {Ok(x), ErrO}
-                  ELSE {Ok(x)}
+                  ELSE Untracked(x, p.c)
            : p \in FV(x["clients.persistent"], "list")})
 
 S20(d) == WithSec(d, "statistics", LAMBDA x :
-            {IF w.k = "err" THEN ErrO
-             ELSE Ok(Put(x, "statistics", "interval",
-                         IF w.k = "yes" /\ w.c.v # "lit:0" THEN C("dur", "days:" \o w.c.v) ELSE C("dur", "lit:24h")))
-             : w \in FV(x["statistics.interval"], "int")})
+            UNION {IF w.k = "err" THEN {ErrO}
+                   ELSE IF w.k = "yes" /\ w.c.v \in OddInt
+                     THEN {ErrO, Ok(Put(x, "statistics", "interval", AnyV("dur")))}
+                   ELSE {Ok(Put(x, "statistics", "interval",
+                                IF w.k = "yes" /\ w.c.v # "lit:0" THEN C("dur", "days:" \o w.c.v)
+                                ELSE C("dur", "lit:24h")))}
+                   : w \in FV(x["statistics.interval"], "int")})
 
 S21(d) == WithSec(d, "dns", LAMBDA x :
             {IF w.k = "err" THEN ErrO
@@ -343,20 +370,25 @@ S22(d) == WithSec(d, "clients", LAMBDA x :
                                  [] OTHER -> Ok(Put(x, "cl0", "blocked_services", C("obj", "bsvc:" \o w.c.v)))
                                : w \in FV(x["cl0.blocked_services"], "list")}
                          ELSE {ErrO, Ok(x)}
-                  ELSE {Ok(x)}
+                  ELSE Untracked(x, p.c)
            : p \in FV(x["clients.persistent"], "list")})
 
 \* Strings the spec knows not to be IP addresses (step 23 fails on them).
-NotIP == {ZS, "lit:\"zz\""}
+NotIP == {ZS, "lit:\"zz\"", "lit:\"127.0.0.1:80\""}
 S23(d) == UNION {CASE h.k = "err" -> {ErrO}
                    [] h.k = "no" -> {Ok(d)}
                    [] OTHER ->
                       IF h.c.v \in NotIP THEN {ErrO}
                       ELSE UNION {IF p.k = "err" \/ s.k = "err" THEN {ErrO}
-                                  ELSE {Ok(PutAll([Clear(Fresh(d, "http"), {"bind_host", "bind_port", "web_session_ttl"})
+                                  ELSE LET oddP == p.k = "yes" /\ p.c.v \in OddPort
+                                           oddS == s.k = "yes" /\ s.c.v \in OddInt IN
+                                    (IF oddP \/ oddS THEN {ErrO} ELSE {}) \cup
+                                    {Ok(PutAll([Clear(Fresh(d, "http"), {"bind_host", "bind_port", "web_session_ttl"})
                                                      EXCEPT !["http"] = SecC], "http",
-                                          <<<<"address", C("str", "addr:" \o h.c.v \o "|" \o VOf(p))>>,
-                                            <<"session_ttl", C("str", "hours:" \o (IF s.k = "yes" THEN s.c.v ELSE "lit:0"))>>>>))}
+                                          <<<<"address", IF oddP THEN AnyV("str")
+                                                         ELSE C("str", "addr:" \o h.c.v \o "|" \o VOf(p))>>,
+                                            <<"session_ttl", IF oddS THEN AnyV("str")
+                                                             ELSE C("str", "hours:" \o (IF s.k = "yes" THEN s.c.v ELSE "lit:0"))>>>>))}
                                   : p \in FV(d["bind_port"], "int"), s \in FV(d["web_session_ttl"], "int")}
                  : h \in FV(d["bind_host"], "str")}
 
@@ -414,7 +446,8 @@ S28(d) == WithSec(d, "dns", LAMBDA x :
 S29(d) == UNION {CASE w.k = "err" -> {ErrO}
                    [] w.k = "no" -> {Ok(d)}
                    [] OTHER ->
-                      (IF d["filters"].t = "list" /\ d["fl0"].t \notin {"absent", "obj"} THEN {ErrO} ELSE {})
+                      (IF (d["filters"].t = "list" /\ d["fl0"].t \notin {"absent", "obj"}) \/ w.c.v \in NotAllObj
+                         THEN {ErrO} ELSE {})
                       \cup UNION {CASE s.k = "err" -> {ErrO}
                                     [] s.k = "no" -> {Ok(d)}
                                     [] OTHER -> {Ok(Put(d, "filtering", "safe_fs_patterns", C("strs", "paths:" \o w.c.v)))}
@@ -507,7 +540,9 @@ SectionKeys == {"coredns", "dns", "dhcp", "dhcp.dhcpv4", "clients", "querylog", 
 
 DevKinds(v, k) ==
     LET c == BaseDocs[v][k] IN
-    IF k = "schema_version" THEN {"null", "float", "future", "neg"} \cup (IF c.t = "absent" THEN {} ELSE {"absent"})
+    IF k = "schema_version" THEN {"null", "float", "future", "neg", "huge", "estr"}
+                                   \cup (IF c.t = "absent" THEN {} ELSE {"absent"})
+                                   \cup (IF v > 0 THEN {"zero"} ELSE {})
     ELSE IF k = "fl0" THEN (IF c.t = "absent" THEN {} ELSE {"null", "float"})
     ELSE IF c.t = "absent" THEN
         \* a key the golden file does not have but a later step looks at,
@@ -518,7 +553,17 @@ DevKinds(v, k) ==
     ELSE {"absent", "null", "float"}
            \cup (IF c.t = "bool" THEN {"flip"} ELSE {})
            \cup (IF c.t = "int" THEN (IF c.v = "lit:0" THEN {"seven"} ELSE {"zero"}) ELSE {})
-           \cup (IF k = "bind_host" THEN {"str"} ELSE {})
+           \* value classes, for the keys a later step reads: integers a step
+           \* converts or multiplies, strings a step parses or hashes, lists a
+           \* step walks
+           \cup (IF c.t = "int" /\ k \in ConcFrom[v] THEN {"neg", "p65535", "p65536", "huge"} ELSE {})
+           \cup (IF c.t = "str" /\ k \in ConcFrom[v] THEN {"estr"} ELSE {})
+           \cup (IF k = "bind_host" THEN {"str", "v6", "hostport"} ELSE {})
+           \cup (IF k = "auth_pass" THEN {"long"} ELSE {})
+           \cup (IF c.t = "list" /\ k \in ConcFrom[v]
+                   THEN {"badelem"} ELSE {})
+           \cup (IF k \in {"dns.upstream_dns", "dns.local_ptr_upstreams"} THEN {"oddstrs"} ELSE {})
+           \cup (IF k \in {"querylog.ignored", "statistics.ignored"} THEN {"dotlist"} ELSE {})
            \cup (IF c.v = "sec" THEN {"empty"} ELSE {})
            \cup (IF c.t = "list" THEN {"emptylist"} ELSE {})
 
@@ -544,6 +589,16 @@ DevCell(k, c, kind) ==
       [] kind = "flip" -> IF c.v = "lit:true" THEN False ELSE True
       [] kind = "true" -> True
       [] kind = "false" -> False
+      [] kind = "p65535" -> C("int", "lit:65535")
+      [] kind = "p65536" -> C("int", "lit:65536")
+      [] kind = "huge" -> C("int", Huge)
+      [] kind = "estr" -> C("str", ZS)
+      [] kind = "v6" -> C("str", "lit:\"::1\"")
+      [] kind = "hostport" -> C("str", "lit:\"127.0.0.1:80\"")
+      [] kind = "long" -> C("str", LongStr)
+      [] kind = "badelem" -> C("list", "lit:[1.5,null]")
+      [] kind = "oddstrs" -> C("list", OddStrs)
+      [] kind = "dotlist" -> C("list", DotList)
       [] kind = "future" -> C("int", "lit:30")
       [] kind = "neg" -> C("int", "lit:-1")
 
@@ -600,13 +655,26 @@ Analyse3(devs, d0, sd0, s, one) ==
      pi |-> s < 0 \/ Commutes({d0}, s),
      idem |-> \A f \in one.oks : \A m \in {Migrate(f, Last)} : m.same /\ ~m.err /\ m.oks = {},
      valid |-> devs # <<>> \/ (s = Last /\ one.same) \/ (~one.err /\ Cardinality(one.oks) = 1)]
-Analyse(v, devs) ==
+AnalyseDoc(dd, devs) ==
     CHOOSE r \in UNION {{Analyse3(devs, d0, sd0, VerOf(d0), one) : sd0 \in {Ser(d0)}, one \in {Migrate(d0, Last)}}
-                          : d0 \in {ApplyDevs(BaseDocs[v], v, devs)}} : TRUE
+                          : d0 \in {dd}} : TRUE
+Analyse(v, devs) == AnalyseDoc(ApplyDevs(BaseDocs[v], v, devs), devs)
+
+(***************************************************************************)
+(* Document-level shapes.  A file that holds no mapping: nothing at all,   *)
+(* only a comment, an explicit null ("null", "~"), a scalar, a list; and a *)
+(* mapping that holds nothing but the stamp.  The first three are the      *)
+(* empty schema-0 document (no key, no stamp); the statement leaves open   *)
+(* whether a non-mapping is refused or read as the empty document, so both *)
+(* are admissible for all of them -- a panic is not.                       *)
+(***************************************************************************)
+EmptyDoc == [k \in Keys |-> Absent]
+DocClasses == {"empty", "comment", "null", "tilde", "scalar", "strdoc", "list"}
 
 Emit(kind, v, devs, r, basef) ==
-    PrintT(<<"@@V", ToJson([kind |-> kind, v |-> v, devs |-> devs, err |-> r.one.err, start |-> r.start,
-                            oks |-> IF kind = "base" THEN {NonAbsent(f) : f \in r.one.oks}
+    PrintT(<<"@@V", ToJson([kind |-> kind, v |-> v, devs |-> devs,
+                            err |-> r.one.err \/ (kind = "doc" /\ devs[1].d \in DocClasses), start |-> r.start,
+                            oks |-> IF kind \in {"base", "doc"} THEN {NonAbsent(f) : f \in r.one.oks}
                                     ELSE {Diff(f, basef) : f \in r.one.oks},
                             ks |-> Splits(r.start)])>>)
 
@@ -614,11 +682,13 @@ BaseFinals == [v \in 0..Last |-> IF v = Last THEN Ser(BaseDocs[v])
                                    ELSE LET o == Migrate(BaseDocs[v], Last).oks IN CHOOSE f \in o : TRUE]
 
 Finish(kind, v, devs) ==
-    \E r \in {Analyse(v, devs)} :
+    \E r \in {IF kind = "doc"
+                THEN AnalyseDoc(IF devs[1].d = "stamp" THEN Stamp(EmptyDoc, v) ELSE EmptyDoc, devs)
+                ELSE Analyse(v, devs)} :
     /\ vec' = [v |-> v, devs |-> devs, stamps |-> r.stamps, pres |-> r.pres, pi |-> r.pi, idem |-> r.idem,
                valid |-> r.valid, nout |-> Cardinality(r.one.oks), err |-> r.one.err, same |-> r.one.same]
     /\ st' = "done"
-    /\ Emit(kind, v, devs, r, IF kind = "base" THEN <<>> ELSE BaseFinals[v])
+    /\ Emit(kind, v, devs, r, IF kind \in {"base", "doc"} THEN <<>> ELSE BaseFinals[v])
 
 \* The enumeration fans out in three levels (version, key, kind) so that
 \* TLC's workers share it.
@@ -628,6 +698,11 @@ PickKey == /\ st = "ver"
               \/ \E k \in DevKeys(vec.v) : st' = "key" /\ vec' = [v |-> vec.v, k |-> k]
 
 PickBase == st = "base" /\ ~Pairs /\ Finish("base", vec.v, <<>>)
+
+\* "@doc" is not a key: the deviation names the class of the whole file.
+PickDoc == /\ st = "base" /\ ~Pairs
+           /\ \E c \in {"stamp"} \cup (IF vec.v = 0 THEN DocClasses ELSE {}) :
+                Finish("doc", vec.v, <<[k |-> "@doc", d |-> c]>>)
 
 PickSingle == /\ st = "key" /\ ~Pairs
               /\ \E kd \in DevKinds(vec.v, vec.k) : Finish("vec", vec.v, <<[k |-> vec.k, d |-> kd]>>)
@@ -644,7 +719,7 @@ PickPair == /\ st = "key" /\ Pairs
                          Finish("vec", v, <<[k |-> h, d |-> hd], [k |-> k, d |-> kd]>>)
 
 Init == st = "pick" /\ vec = [v |-> 0 - 1]
-Next == PickVer \/ PickKey \/ PickBase \/ PickSingle \/ PickPair
+Next == PickVer \/ PickKey \/ PickBase \/ PickDoc \/ PickSingle \/ PickPair
 Spec == Init /\ [][Next]_vars
 
 \* ----------------------------------------------- properties of the statement
